@@ -1,9 +1,10 @@
-import SqlProofs.DelimR.Lift
+import SqlProofs.DelimChild.Reindent.Lift
 /-!
-# SqlProofs.DelimR.AdHocBase — helpers for the loop passes
+# SqlProofs.DelimChild.Reindent.AdHocBase — helpers for the loop passes
 -/
 namespace Sql
-namespace DC
+namespace DCR
+open DC
 
 variable {u : Text → Text}
 
@@ -151,5 +152,5 @@ macro "comma_simp" : tactic => `(tactic| simp (config := { decide := true }) [No
   Gen.group_aliased_token_next_by1_t, Gen.group_order_token_next_by0_t, Gen.group_order_token_next_by1_t,
   Gen.group_values_token_next_by0_m, Gen.group_comments_imt0_t, List.isPrefixOf])
 
-end DC
+end DCR
 end Sql
